@@ -225,14 +225,15 @@ impl QueryExecutor {
         self.futures.push(Box::pin(async move {
             match tokio::time::timeout(WRITE_TIMEOUT, substream.send_framed(message)).await {
                 // Timeout error.
-                Err(_) =>
+                Err(_) => {
                     return QueryContext {
                         peer,
                         query_id,
                         result: QueryResult::SendFailure {
                             reason: FailureReason::Timeout,
                         },
-                    },
+                    }
+                }
                 // Writing message to substream failed.
                 Ok(Err(_)) => {
                     let _ = substream.close().await;
@@ -287,14 +288,15 @@ impl QueryExecutor {
         self.futures.push(Box::pin(async move {
             match tokio::time::timeout(WRITE_TIMEOUT, substream.send_framed(message)).await {
                 // Timeout error.
-                Err(_) =>
+                Err(_) => {
                     return QueryContext {
                         peer,
                         query_id,
                         result: QueryResult::SendFailure {
                             reason: FailureReason::Timeout,
                         },
-                    },
+                    }
+                }
                 // Writing message to substream failed.
                 Ok(Err(_)) => {
                     let _ = substream.close().await;
